@@ -1,11 +1,59 @@
 import EpdVerif.Drivers.Dsl
 import EpdVerif.Gen.Epd2in9bc
-/-! model of `src/epd2in9bc/mod.rs` (STUB: programs not yet transcribed) -/
+/-! model of `src/epd2in9bc/mod.rs` -/
 namespace EpdVerif.Drivers.Epd2in9bc
 open EpdVerif
 open EpdVerif.Gen.Epd2in9bc
 
-def prog (_f : Feat) (_d : DState) : Op → Option (List Act)
+def W : Act := .wait IS_BUSY_LOW
+
+def sendResolution : List Act :=
+  [.cmd Command.ResolutionSetting, .data [u8 WIDTH], .data [shr8 HEIGHT 8], .data [u8 HEIGHT]]
+
+def init : List Act :=
+  [.reset 10000 10000] ++
+  cmdData Command.BoosterSoftStart [0x17, 0x17, 0x17] ++
+  [.cmd Command.PowerOn, .delayUs 5000, W] ++
+  cmdData Command.PanelSetting [0x8F] ++
+  cmdData Command.VcomAndDataIntervalSetting [u8 (WHITE_BORDER ||| VCOM_DATA_INTERVAL)] ++
+  sendResolution ++
+  cmdData Command.VcmDcSetting [0x0A] ++ [W]
+
+def updateAchromatic (b : Bytes) : List Act := [.cmd Command.DataStartTransmission1, .data b]
+
+def updateChromatic (c : Bytes) : List Act := [.cmd Command.DataStartTransmission2, .data c, W]
+
+def updateFrame (d : DState) (b : Bytes) : List Act :=
+  [.cmd Command.DataStartTransmission1, .data b,
+   .cmd Command.DataStartTransmission2, .rep (byteValue d.bg) NUM_DISPLAY_BITS, W]
+
+def displayFrame : List Act := [.cmd Command.DisplayRefresh, W]
+
+/-- `set_border_color` (argument: TriColor index) -/
+def borderByte (c : Nat) : Nat :=
+  if c = 0 then BLACK_BORDER else if c = 1 then WHITE_BORDER else CHROMATIC_BORDER
+
+def prog (_f : Feat) (d : DState) : Op → Option (List Act)
+  | .new => some init
+  | .wake => some init
+  | .sleep => some (
+      cmdData Command.VcomAndDataIntervalSetting [u8 (FLOATING_BORDER ||| VCOM_DATA_INTERVAL)] ++
+      [.cmd Command.PowerOff, W] ++ cmdData Command.DeepSleep [0xA5])
+  | .upd b => some (updateFrame d b)
+  | .part _ _ _ _ _ => some []
+  | .disp => some displayFrame
+  | .updisp b => some (updateFrame d b ++ displayFrame)
+  | .clear => some (sendResolution ++
+      [.cmd Command.DataStartTransmission1, .rep (byteValue DEFAULT_BACKGROUND_COLOR) NUM_DISPLAY_BITS,
+       .cmd Command.DataStartTransmission2, .rep (byteValue DEFAULT_BACKGROUND_COLOR) NUM_DISPLAY_BITS,
+       W])
+  | .bg c => some [.upd (fun d => { d with bg := c })]
+  | .lut _ => some []
+  | .wait => some [W]
+  | .color b c => some (updateAchromatic b ++ updateChromatic c)
+  | .achro b => some (updateAchromatic b)
+  | .chro c => some (updateChromatic c)
+  | .border c => some (cmdData Command.VcomAndDataIntervalSetting [u8 (borderByte c ||| VCOM_DATA_INTERVAL)])
   | _ => none
 
 def panel (f : Feat) : Panel :=
